@@ -338,6 +338,8 @@ Proof. exact order_independent. Qed.
     What remains assumed is [respects], about the meaning of the individual statements (universally quantified [m]):
     a statement writes through references it holds or builds a copy as the census says, and what it computes depends on
     the template only through the template's value.
+    (Round 5, below: c17_property_by_statement_kinds replaces [respects] by a generated per-statement kind table that the
+    check validates on every run, plus the per-kind contract [follows]; [respects] is then derived.)
     Conclusion: every result (how control left collapse_one, what was added to the map) of ANY history of collapses of
     one template in one process equals what that call alone gives on the untouched template, in a new process (any
     process state [g0]), at the identity placement, moved to its own placement. *)
